@@ -455,6 +455,10 @@ pub fn cases(tier: &str) -> Vec<Case> {
         for r in ["proto", "native", "other", "garbage", "multi", "multi2"] {
             v.push(spend_case(s, r, None));
             v.push(spend_case(s, r, Some("channel-1")));
+            // unusual channel strings are still "a channel was given": an IBC spend, never a local one
+            v.push(spend_case(s, r, Some("")));
+            v.push(spend_case(s, r, Some(" ")));
+            v.push(spend_case(s, r, Some("channel-18446744073709551615")));
         }
         for tk in 0..3u8 {
             for rk in 0..3u8 {
